@@ -16,8 +16,13 @@ ff_derivative_formula ff_derivative_formula_real ffDerivative_entry ff_derivativ
 infidelity_derivative_linear integrate_trapezoid selection_is_slice gradient_contractions_rowwise
 indicesFromIdentifiers_examples nCoeffsDerivShapeOk_iff sensitivity_term
 sensitivity_term_fails_at_zero sensitivity_real gradient_source_shape
-gradient_einsum_shape'''.split()
-GEN_SITES = ['const:gradient.masks', 'einsum:gradient_calculate_filter_function_derivative_0',
+gradient_einsum_shape'''.split() + [
+    # the derivative is served through the cache machine of C07 (control matrix with intermediates,
+    # then the cached first-order integral): a stale intermediate is a wrong gradient
+    'FFVerif.C07.cleanup_freq', 'FFVerif.C07.deriv_spec', 'FFVerif.C07.served_value_is_fresh']
+LEAN_MODULES = ['FFVerif.Props.C11', 'FFVerif.Props.C07']
+PINS = ['pinGetFFDerivative', 'pinGradControlMatrix', 'pinInfidelityDerivative']
+GEN_SITES = ['cache:cleanup', 'cache:method_bodies', 'const:gradient.masks', 'einsum:gradient_calculate_filter_function_derivative_0',
              'einsum:gradient_infidelity_derivative_0']
 COMPONENTS = ['derivative_integral', 'liouville_A', 'ff_derivative', 'infidelity_derivative']
 RULES = ['correspondence: _derivative_integral, A_mat, calculate_filter_function_derivative and the '
@@ -132,6 +137,28 @@ def check_gradient(ctx, case):
         ctx.fail('gradient_shape', case, [list(dF.shape), list(dI.shape)],
                  [len(nid), n_dt, len(cid)], feats, 'derivative has the wrong shape')
         return
+    # the same derivatives from pulse objects with a cache history (other grids of the same length,
+    # intermediates, explicit cachers, clean-ups; then possibly a control matrix / filter function
+    # on the requested grid): must equal the ones of the fresh pulse
+    for k in range(3):
+        hrng = np.random.default_rng([int(case.get('seed', 0)), k, n_dt])
+        pu = gens.build_used(desc, hrng, 1.0, len(omega), omega, touch_kinds=('cm', 'ff1', 'phases'))
+        with np.errstate(all='ignore'):
+            try:
+                dFu = pu.get_filter_function_derivative(omega, c_sel, n_sel)
+                dIu = gradient.infidelity_derivative(pu, S, omega, c_sel, n_sel)
+            except Exception as e:   # noqa
+                ctx.fail('gradient_after_history', case, f'{type(e).__name__}: {e}', 'a derivative',
+                         feats, f'derivative raised {type(e).__name__} on a pulse with a cache history')
+                return
+        eF = gens.abs_err(dFu, dF, 1e-12)
+        eI = gens.abs_err(dIu, dI, 1e-14)
+        if not (eF <= 1e-8 and eI <= 1e-8):
+            ctx.fail('gradient_after_history', case, {'ff_derivative': eF, 'infidelity_derivative': eI},
+                     'the derivatives of a fresh pulse', feats,
+                     f'derivatives of a pulse with a cache history differ from a fresh pulse by '
+                     f'{eF:.3g} / {eI:.3g} (features={desc["features"]})')
+            return
     # finite differences of the package's own filter function / infidelity
     rows = [desc['c_ids'].index(i) for i in cid]
 
@@ -261,7 +288,8 @@ def search(ctx, deep=False):
             c_sel = list(rng.permutation(desc['c_ids'])[:k])
             k = int(rng.integers(1, len(desc['n_ids']) + 1))
             n_sel = list(rng.permutation(desc['n_ids'])[:k])
-        check_gradient(ctx, {'desc': desc, 'omega': omega, 'c_sel': c_sel, 'n_sel': n_sel})
+        check_gradient(ctx, {'desc': desc, 'omega': omega, 'c_sel': c_sel, 'n_sel': n_sel,
+                             'seed': int(rng.integers(0, 2**31))})
         if i % 3 == 0:
             check_sens_deriv(ctx, {'desc': desc, 'omega': omega, 'seed': int(rng.integers(0, 2**31)),
                                    'zero_sens': bool(i % 6 == 0)})
